@@ -390,3 +390,87 @@ Proof.
     + rewrite bal_after_to by congruence. rewrite Hb1lp. lia.
     + rewrite Hb1lp. lia.
 Qed.
+
+(** ** the same for the locked variants (launchpad-locked-tokens, locked-tokens-and-guaranteed-tickets):
+    the entitlement leaves in two parts, one to the lock contract *)
+From LP Require Import Proofs.Lock.
+
+Theorem Cover_claim_locked e w A :
+  ClaimInv w A -> CoverInv w -> pay_token (st w) <> lp_token (st w) -> caller e <> sc_addr ->
+  lock_sc (st w) <> sc_addr -> lock_pct (st w) <= MAX_PERCENTAGE -> 0 < tpt (st w) ->
+  get_launch_stage e (st w) = Claim -> claimed (st w) (caller e) = false ->
+  range (st w) (caller e) <> None ->
+  exists w',
+    claim_launchpad_tokens send_locked_launchpad_tokens e w = Ok w' /\ ClaimInv w' A /\ CoverInv w' /\
+    let wins := winning_of (st w) (caller e) in
+    nr_winning (st w') = nr_winning (st w) - wins /\
+    bal w' sc_addr (lp_token (st w)) 0 + tpt (st w) * wins = bal w sc_addr (lp_token (st w)) 0.
+Proof.
+  intros Hi Hc Htok Hne Hlsc Hpct Htptpos Hstage Hcl Hr. unfold CoverInv in *.
+  destruct (ClaimInv_settle e w A Hi Hr) as (w1 & wins & E & Hw & Hi1 & Hb1 & _ & _ & _).
+  pose proof (settle_spec e w w1 wins E) as Hs. cbn zeta in Hs.
+  destruct Hs as (_ & _ & _ & _ & _ & _ & Hn1 & Hwle & _ & Htf & _).
+  destruct (tf_lp _ _ Htf) as [Hlp Htpt]. destruct (tf_price' _ _ Htf) as [_ Hpt].
+  assert (Hlk : lock_pct (st w1) = lock_pct (st w) /\ unlock_epoch (st w1) = unlock_epoch (st w) /\ lock_sc (st w1) = lock_sc (st w)).
+  { unfold tf, terms_of in Htf. inversion Htf. auto. }
+  destruct Hlk as (Hlp1 & Hue1 & Hls1).
+  assert (Hwins : wins <= nr_winning (st w)).
+  { rewrite (ci_win _ _ Hi), Hw. apply sumN_map_ge.
+    destruct (in_dec N.eq_dec (caller e) A) as [Hin|Hn]; [exact Hin|]. destruct (ci_support _ _ Hi _ Hn) as [_ Hx]. contradiction. }
+  assert (Hlpbal : forall x, bal w1 x (lp_token (st w)) 0 = bal w x (lp_token (st w)) 0).
+  { intros x. rewrite Hb1. destruct (0 <? due (st w) (caller e)); [|reflexivity].
+    apply bal_after_other; intros Hx; inversion Hx; congruence. }
+  unfold claim_launchpad_tokens, require_stage. rewrite Hstage. cbn [stage_eqb require bind].
+  rewrite Hcl. cbn [negb require bind]. rewrite E. cbn [bind].
+  unfold send_launchpad_tokens. subst wins. set (wins := winning_of (st w) (caller e)) in *.
+  destruct (N.eqb_spec wins 0) as [Hz|Hnz].
+  - exists w1. split; [reflexivity|]. split; [exact Hi1|]. rewrite Hlp, Htpt, Hn1, !Hlpbal, Hz.
+    split; [lia|]. cbn zeta. repeat split; lia.
+  - unfold send_locked_launchpad_tokens. rewrite Htpt.
+    set (amt := wins * tpt (st w)). set (la := lock_amount (st w1) e amt).
+    assert (Hla : la <= amt).
+    { unfold la, lock_amount. rewrite Hlp1. destruct (epoch e <? unlock_epoch (st w1)); [|lia].
+      unfold MAX_PERCENTAGE in *. apply N.div_le_upper_bound; [lia|]. nia. }
+    assert (Hf : amt <= bal w1 sc_addr (lp_token (st w)) 0) by (rewrite Hlpbal; unfold amt; nia).
+    cbv zeta. rewrite Hls1. rewrite !Hlp.
+    (* first leg: to the lock contract *)
+    destruct (N.ltb_spec 0 la) as [Hlap|Hlaz].
+    + assert (Hf1 : la <= bal w1 sc_addr (lp_token (st w)) 0) by lia.
+      rewrite (proj2 (transfer_ok w1 sc_addr (lock_sc (st w)) (lp_token (st w)) 0 la _) (conj Hf1 eq_refl)). cbn [bind].
+      set (w2 := w1 <| bal := bal_after (bal w1) sc_addr (lock_sc (st w)) (lp_token (st w)) 0 la |>
+                    <| locks := _ |>).
+      assert (Hb2 : bal w2 sc_addr (lp_token (st w)) 0 = bal w sc_addr (lp_token (st w)) 0 - la).
+      { unfold w2. cbn. rewrite bal_after_from by congruence. rewrite Hlpbal. reflexivity. }
+      destruct (N.ltb_spec 0 (amt - la)) as [Hrp|Hrz].
+      * assert (Hf2 : amt - la <= bal w2 sc_addr (lp_token (st w)) 0) by (rewrite Hb2; rewrite Hlpbal in Hf; lia).
+        eexists. split; [apply transfer_ok; split; [exact Hf2|reflexivity]|].
+        split; [|split].
+        -- eapply ClaimInv_same_ledger; [exact Hi1|reflexivity..|]. cbn.
+           rewrite !bal_after_other; [lia| | | |]; rewrite ?Hpt; intros Hx; inversion Hx; congruence.
+        -- cbn. rewrite Hlp, Htpt, Hn1. rewrite bal_after_from by congruence.
+           change (bal_after (bal w1) sc_addr (lock_sc (st w)) (lp_token (st w)) 0 la sc_addr (lp_token (st w)) 0) with (bal w2 sc_addr (lp_token (st w)) 0).
+           rewrite Hb2. unfold amt in *. rewrite Hlpbal in Hf. nia.
+        -- cbn zeta. fold wins. cbn. rewrite Hn1. split; [reflexivity|].
+           rewrite bal_after_from by congruence.
+           change (bal_after (bal w1) sc_addr (lock_sc (st w)) (lp_token (st w)) 0 la sc_addr (lp_token (st w)) 0) with (bal w2 sc_addr (lp_token (st w)) 0).
+           rewrite Hb2. unfold amt in *. rewrite Hlpbal in Hf. nia.
+      * exists w2. split; [reflexivity|]. split; [|split].
+        -- eapply ClaimInv_same_ledger; [exact Hi1|reflexivity..|]. unfold w2. cbn.
+           rewrite bal_after_other; [lia| |]; rewrite ?Hpt; intros Hx; inversion Hx; congruence.
+        -- assert (Hst2 : st w2 = st w1) by reflexivity. rewrite Hst2, Hlp, Htpt, Hn1, Hb2. unfold amt in *. rewrite Hlpbal in Hf. nia.
+        -- cbn zeta. fold wins. assert (Hst2 : st w2 = st w1) by reflexivity. rewrite Hst2, Hn1. split; [reflexivity|]. rewrite Hb2.
+           unfold amt in *. rewrite Hlpbal in Hf. nia.
+    + cbn [bind]. assert (la = 0) by lia. 
+      destruct (N.ltb_spec 0 (amt - la)) as [Hrp|Hrz].
+      * assert (Hf2 : amt - la <= bal w1 sc_addr (lp_token (st w)) 0) by lia.
+        eexists. split; [apply transfer_ok; split; [exact Hf2|reflexivity]|].
+        split; [|split].
+        -- eapply ClaimInv_same_ledger; [exact Hi1|reflexivity..|]. cbn.
+           rewrite bal_after_other; [lia| |]; rewrite ?Hpt; intros Hx; inversion Hx; congruence.
+        -- cbn. rewrite Hlp, Htpt, Hn1. rewrite bal_after_from by congruence. rewrite Hlpbal.
+           unfold amt in *. rewrite Hlpbal in Hf. nia.
+        -- cbn zeta. fold wins. cbn. rewrite Hn1. split; [reflexivity|].
+           rewrite bal_after_from by congruence. rewrite Hlpbal. unfold amt in *. rewrite Hlpbal in Hf. nia.
+      * (* nothing to send: impossible, the entitlement is positive *)
+        exfalso. unfold amt in *. nia.
+Qed.
